@@ -279,7 +279,26 @@ def mutate(rng, tgt, ios, with_groups=True, unmanaged=True, max_edits=None):
                 dev['acls'][n2] = gen_acl(rng, ios, None, n=2)
                 dev['binds'][loc] = n2
                 info['edits'].append('extra-bind')
-    # drop device groups nobody uses unless generated-looking (left-overs are kept on purpose)
+    if with_groups and not ios and dev['acls'] and rng.random() < 0.25:
+        # a device group is edited in place for one line; a later line needs the old content of that group, its own
+        # device group being too different to be edited
+        a = rng.choice(sorted(dev['acls']))
+        ta = next((k for k, v in amap.items() if v == a), a)
+        if ta in tgt['acls'] and 'gS' not in tgt['groups']:
+            E = [['network-object', 'host', '10.44.0.%d' % i] for i in (1, 2, 3)]
+            X = E[:2] + [['network-object', 'host', '10.44.0.9']]
+            FAR = [['network-object', 'host', '10.55.0.%d' % i] for i in (1, 2, 3, 4)]
+            l1 = ['extended', 'permit', 'udp', 'object-group', 'gS', 'any4', 'eq', '4501']
+            l2 = ['extended', 'permit', 'udp', 'object-group', 'gT', 'any4', 'eq', '4502']
+            tgt['groups']['gS'] = (['network'], copy.deepcopy(X))
+            tgt['groups']['gT'] = (['network'], copy.deepcopy(E))
+            dev['groups']['dS'] = (['network'], copy.deepcopy(E))
+            dev['groups']['dT'] = (['network'], copy.deepcopy(FAR))
+            order = rng.random() < 0.7
+            tgt['acls'][ta][0:0] = [l1, l2] if order else [l2, l1]
+            d1, d2 = rename_refs(l1, {'gS': 'dS'}), rename_refs(l2, {'gT': 'dT'})
+            dev['acls'][a][0:0] = [d1, d2] if order else [d2, d1]
+            info['edits'].append('grp-shift')
     used = set(r for ls in dev['acls'].values() for l in ls for r in refs(l))
     for g in list(dev['groups']):
         if g not in used and '-DRC-' not in g:
